@@ -32,15 +32,20 @@ func c03Mont(v *big.Int) *[4]uint64 {
 
 func TestVerif_C03_OffCurveSolved(t *testing.T) {
 	rec := stats.Get("C03", "offcurve-solved")
-	rec.Rule("rapid: a coordinate pair that is NOT on the curve (a valid key with y+1..3, x+1, or a uniform pair), turned into a projective point through the library's raw constructor; for uniform (s,t) the point R = [s]G+[t]P' is computed with the library's own double-scalar routine, then r = t-s, e = r - x_R: the verification equation holds under the library's arithmetic, so only the curve-membership check can reject. Oracle: VerifyHashed returns false (the standard requires a point on the curve). Every case non-trivial; distinct by (x,y,s,t).")
+	rec.Rule("rapid: a coordinate pair that is NOT on the curve (a valid key with y+1..3, x+1, a uniform pair, or a y whose square agrees with the curve's right-hand side except in part of one limb), turned into a projective point through the library's raw constructor; for uniform (s,t) the point R = [s]G+[t]P' is computed with the library's own double-scalar routine, then r = t-s, e = r - x_R: the verification equation holds under the library's arithmetic, so only the curve-membership check can reject. Oracle: VerifyHashed returns false (the standard requires a point on the curve). Every case non-trivial; distinct by (x,y,s,t).")
 	t.Cleanup(stats.FlushAll)
 	rapid.Check(t, func(t *rapid.T) {
 		r0 := gen.Rand(t, "seed")
 		d, _, _ := sm2gen.PrivKey(t, "d")
 		px, py, _ := sm2gen.Pub(d)
 		x, y := new(big.Int).SetBytes(px), new(big.Int).SetBytes(py)
-		cls := gen.Pick(t, "class", "y+k", "y+k", "x+1", "uniform")
+		cls := gen.Pick(t, "class", "y+k", "y+k", "x+1", "uniform", "limb-near-miss", "limb-near-miss")
 		switch cls {
+		case "limb-near-miss":
+			// y'^2 equals x^3-3x+b except in part of one 64-bit limb of its plain or Montgomery form (y' by square root)
+			if yy, ok := sm2gen.NearMissY(t, "nm", x); ok {
+				y = yy
+			}
 		case "y+k":
 			y.Add(y, big.NewInt(int64(gen.Int(t, "k", 1, 3)))).Mod(y, gen.P)
 		case "x+1":
